@@ -70,7 +70,14 @@ def ndarray2utpm(A):
     shp = numpy.shape(A)
     A = numpy.ravel(A)
     # entries may themselves be vector- or matrix-valued polynomials: their axes follow the container's
-    retval = zeros(shp + numpy.shape(A[0]),dtype=A[0])
+    # (the first polynomial entry is the prototype, plain numbers may come first; the common type
+    # of all entries: a complex entry after a real one keeps its imaginary part)
+    proto = next((a for a in A if isinstance(a, algopy.UTPM)), A[0])
+    retval = zeros(shp + numpy.shape(proto),dtype=proto)
+    if isinstance(retval, algopy.UTPM):
+        dtype = numpy.result_type(*[a.data.dtype if isinstance(a, algopy.UTPM) else numpy.asarray(a).dtype for a in A])
+        if retval.data.dtype != dtype:
+            retval = algopy.UTPM(retval.data.astype(dtype))
 
     for na, a in enumerate(A):
         retval[numpy.unravel_index(na, shp)] = a
@@ -114,6 +121,10 @@ def symvec(A, UPLO='F'):
 
     assert N == M
 
+    if UPLO == 'F' and isinstance(A, numpy.ndarray) and A.dtype.kind in 'iub':
+        # the means of an integer-typed matrix are not integers
+        A = A.astype(float)
+
     v = zeros( ((N+1)*N)//2, dtype=A)
 
     if UPLO=='F':
@@ -152,6 +163,8 @@ def vecsym(v):
     from .globalfuncs import zeros
     Nv = v.size
     N = (int(numpy.sqrt(1 + 8*Nv)) - 1)//2
+    if (N*(N+1))//2 != Nv:
+        raise ValueError('size of v does not match the symmetric matrix format')
 
     A = zeros( (N,N), dtype=v)
 
